@@ -146,7 +146,9 @@ def pauli_index_to_F2(index, num_qubit:int, with_sign:bool=True):
         ret = _pauli_index_int_to_F2(index, num_qubit, with_sign)
     else:
         assert num_qubit <= 32
-        index = np.asarray(index, dtype=np.uint64)
+        index = np.asarray(index)
+        assert (index.size==0) or ((int(index.min())>=0) and (int(index.max())<4**num_qubit)) #same range as the scalar branch
+        index = index.astype(np.uint64)
         shape = index.shape
         index = index.reshape(-1)
         if endianness_map[index.dtype.byteorder]=='little':
